@@ -44,6 +44,21 @@ CLAIMED = {
                 "makes a symmetric drift of reader and writer visible.",
         "design": "4/C06",
     },
+    "C08": {
+        "rules": "R-SEQ, R-LAYOUT, R-NOPAD, R-MUSTCALL, R-TAINT(signed sinks), R-ORDER, R-ACCT(pitch law), R-NOWRAP, R-NARROW, R-INIT, R-WRITESET, R-SIB",
+        "text": "Static analysis of the indexed-bitmap reader/writer: headers and palette are read and written in the same "
+                "order and widths and match the frozen description; record layouts and constants are the documented ones; "
+                "every returned bitmap has passed the four validations BitmapFile::Validate itself runs; a validated or "
+                "factory-made header has width >= 0 and height != INT32_MIN (must-facts at the exits of Validate/Create), so "
+                "no sign-extended pitch, std::abs or negation of INT32_MIN is reachable for loader-returned objects; "
+                "allocations are dominated by the header rules; the pitch is (bytes+3)&~3 of (width*depth+7)/8 with a "
+                "single source; WritePixels emits per row the meaningful bytes then a zero-filled pad; file-size fields are "
+                "range-checked; factory headers come from aggregates naming every field; flipping negates the height once, "
+                "writes only height and pixels, and contains no unguarded unsigned subtraction.",
+        "note": "Declined: pixel/palette value preservation; the partial-palette count mismatch (documented blind spot); that "
+                "flipping twice restores the rows.",
+        "design": "4/C08",
+    },
     "C10": {
         "rules": "R-SEQ, R-LAYOUT, R-NOPAD, R-MUSTCALL, R-INDEX(strength), R-NARROW, R-INIT, R-ORDER, R-CONST",
         "text": "Static analysis of the PRT serialiser pair: ArtFile::Write, ArtFile::Read and spec/prt.seq.json agree token "
